@@ -1,185 +1,886 @@
 """C05 — independence of chunk sizes, workers, thread timing and file format: the real pipeline
 read_pin -> brew -> assign_confidence under a lattice of configurations; every run is compared with the
-baseline run, and the baseline with the chunk-free model prediction (Model/Brew.v, Model/Confidence.v)."""
+baseline run, and the baseline with the chunk-free model prediction (Model/Brew.v, Model/Confidence.v, the
+chunk-free feature-column specification of Model/PinCols.v).
+
+The runner of the real code lives in this file (`_run`): it writes the generated tables (text with suffix .pin / .tab,
+Parquet with a row-group layout, optionally dictionary-encoded strings), sets the chunk constants (module attributes,
+or — `env` variants, in a fresh interpreter started through harness/c05_worker.py — the MOKAPOT_* environment
+variables the code reads itself), perturbs task durations, and records through a probe on the readers which chunk
+sizes the code really used, so that a configuration that silently has no effect is reported instead of counted."""
+import json
+import os
+import random as _random
+import shutil
+import subprocess
+import sys
+import tempfile
+import threading
 from fractions import Fraction
+from pathlib import Path
 
 from .. import lib, brewlib
 from ..lib import call_impl
 from . import c02, c03
 
 PROP = "C05"
-RULE = ("per dataset (1-2 files, 40-200 PSMs, spectra with several PSMs) one baseline run (default chunk sizes, 1 worker, "
-        "text) and 6-12 variant runs: each chunk constant (confidence, merge-sort, prediction, training read, column scan, "
-        "row scan) in {1, 2, 3, 7, n-1, n, n+1}, max_workers in {2, 4, 8, 16} with randomly perturbed task durations, "
-        "Parquet with row groups {1, 3, n}; transparent estimator (scores exact) and the real PercolatorModel (scores "
-        "compared to 1e-9). Compared: parsed dataset, brew scores and descs, every result file (rows, order, q-values). "
-        "The baseline is compared with the extracted model. distinct = (dataset, variant) pairs; non-trivial = variant "
-        "leaves a 1-row last chunk, or a chunk lacking some fold, or uses > 1 worker with sleeps, or Parquet")
+RULE = ("datasets are drawn from 10 profiles (every profile occurs in both tiers; quick 10 datasets, thorough 20): 1-3 jointly "
+        "analysed files of different sizes (30-170 PSMs, spectra with 1-4 PSMs, spectrum keys of 1-4 columns), 1-36 feature "
+        "columns (so that the default column-scan chunk of 19 splits them), columns in shuffled order, features with missing "
+        "values in the first / last / a middle row (must be dropped whatever the row- and column-scan chunks), integer or "
+        "dyadic-float features, labels as 1/-1, 1/0 or booleans, optional ModifiedPeptide / Precursor / PeptideGroup level "
+        "columns, pairwise distinct or tied feature values (ties: no tie-break added to the scores), folds 2-6, "
+        "subset_max_train absent / small, a single dataset object or a list, ensemble=True or per-fold prediction, "
+        "decision_function or predict_proba estimator, de-duplication on / off, rollup on / off, prefixed or shared (appended) "
+        "result files; transparent estimator whose learned column depends on the ORDER of the training rows (scores exact) "
+        "and the real PercolatorModel. Per dataset one baseline run (default chunk sizes, 1 worker, .pin text) and 20 (quick) or 29-30 (thorough) "
+        "variant runs: each chunk constant (confidence, merge-sort, prediction, training read, column scan, row scan) in "
+        "{1, 2, 3, 7, n/3+1, n/2, n/2+1, n-1, n, n+1} for n the rows of the largest and of the smallest file, the "
+        "confidence chunk also at the number of distinct spectra / peptides +-1 (flush boundary of the per-level batches), "
+        "the column-scan chunk in {1, 2, 3, #ids, #ids+1, #features, #cols-1, #cols, #cols+1, 19}; pairs (confidence, "
+        "merge-sort); all constants small at once; max_workers in {2, 3, 4, 8, 16} (read and brew workers equal or different) "
+        "with randomly perturbed task durations, alone and combined with small chunks (many tasks per pool); Parquet with row "
+        "groups {1, 2, 3, 7, n/2+1, n-1, n} combined with random chunk settings incl. merge-sort, Parquet with "
+        "dictionary-encoded string columns (one row group; short row groups on every fifth dataset: known finding); text with "
+        "suffix .tab; text that spells integer-valued floats without a fraction (%g) with small row-scan / training / prediction / "
+        "merge-sort chunks, and with a small confidence chunk (known finding when a float spectrum-key column is de-duplicated); "
+        "on every second dataset the same settings given through the MOKAPOT_* environment "
+        "variables to a fresh interpreter with another PYTHONHASHSEED; every variant runs with another state of the global "
+        "numpy / random generators. Compared with the baseline: feature columns of every file, brew scores and descs, which "
+        "rows each fold model scored, result file names, header, every cell of every row (ids, peptide, proteins, level "
+        "columns, PEP exactly; score to 1e-9 because it passes through text; q-values exactly), row order, leftover files. "
+        "Tied scores: rows may be permuted among equal scores only; when an entity has two top PSMs with the same score (any "
+        "tied winner is legitimate) only the (spectrum, score) multiset at PSM level is compared. The baseline is compared "
+        "with the extracted model (transparent estimator, integer features, no ensemble: Brew.v; distinct scores: "
+        "Confidence.v), its feature columns with the chunk-free specification (columns without missing value, file order), "
+        "ensemble scores with the mean of the learned columns (property oracle alone: ensemble is not in the Coq model; "
+        "float-valued features and the real learner likewise are checked against the baseline only). "
+        "A probe on the readers records the chunk sizes in use: a variant whose setting never reached the code is a failure "
+        "of the check. distinct = (dataset, variant) pairs; non-trivial = the baseline and the variant ran to the end and "
+        "the variant really changed the execution: some configured stream was delivered in >= 2 chunks, or > 1 worker, or "
+        "another file format / suffix / interpreter")
 ASSUMPTIONS = [
-    "floating-point summation order inside numpy / liblinear is runtime: real-learner scores are compared to 1e-9 relative",
+    "floating-point summation order inside numpy / liblinear is runtime: real-learner scores are compared to 1e-9 relative "
+    "(result files exactly whenever the scores are bit-identical, which they are on the pinned tree)",
     "PEP estimation replaced by a constant (C06)",
+    "among PSMs with equal scores any order, and among equally scored top PSMs of one spectrum / peptide any winner, is "
+    "accepted (pandas sort and merge order; C03 assumption)",
+    "feature values are integers or multiples of 1/4 so that text and Parquet carry the identical table",
+    "column names that collide with mokapot's internal names (fold, score) are outside this property: they fail "
+    "identically under every configuration",
+    "the brew scores are passed to assign_confidence as they are, non-finite values included (a fold whose lowest accepted "
+    "target score equals its median decoy score calibrates to inf / NaN under every configuration alike)",
 ]
-TRUSTED_EXTRA = c02.TRUSTED_EXTRA + ["pyarrow iter_batches batch lengths (oracle; contract in C13)"]
+TRUSTED_EXTRA = c02.TRUSTED_EXTRA + ["pyarrow iter_batches batch lengths (oracle; contract in C13)",
+                                     "the probe wraps CSVFileReader / ParquetFileReader.get_chunked_data_iterator and "
+                                     "pyarrow.parquet.ParquetFile.iter_batches (records sizes, passes data through)"]
+
+LEVEL_COLS = list(c03.LEVEL_COLS)
+SPEC_COLS = ("filename", "ScanNr", "ret_time", "ExpMass")
+STREAMS = ("confidence", "mergesort", "predict", "trainread", "colscan", "rowscan")
+ENV_NAMES = {
+    "confidence": "MOKAPOT_CONFIDENCE_CHUNK_SIZE",
+    "trainread": "MOKAPOT_CHUNK_SIZE_READ_ALL_DATA",
+    "predict": "MOKAPOT_CHUNK_SIZE_ROWS_PREDICTION",
+    "colscan": "MOKAPOT_CHUNK_SIZE_COLUMNS_FOR_DROP_COLUMNS",
+    "rowscan": "MOKAPOT_CHUNK_SIZE_ROWS_FOR_DROP_COLUMNS",
+    "mergesort": "MOKAPOT_MERGE_SORT_CHUNK_SIZE",
+}
+
+# ----------------------------------------------------------------------------- dataset profiles
+# every profile forces the dimensions named in it; everything else is drawn at random per dataset
+PROFILES = [
+    {"name": "classic", "nfiles": 1, "learner": "transparent"},
+    {"name": "multi-file", "nfiles": (2, 3), "learner": "percolator", "prefixes": True, "nfeat": (3, 6, 17)},
+    {"name": "nan-features", "nan": True, "nfeat": (15, 16, 17, 18, 34, 36), "shuffle_cols": True, "learner": "transparent"},
+    {"name": "ensemble", "ensemble": True, "learner": "transparent", "nfiles": (1, 2)},
+    {"name": "nodedup-levels-shared", "dedup": False, "levels": True, "nfiles": (2, 2, 3), "prefixes": False, "learner": "transparent"},
+    {"name": "ties", "ties": True, "learner": "transparent"},
+    {"name": "proba-capped", "est_mode": "proba", "cap": True, "folds": (5, 6), "learner": "transparent"},
+    {"name": "float-nan-percolator", "floats": True, "nan": True, "learner": "percolator", "label_enc": "01", "shuffle_cols": True,
+     "nfeat": (3, 6, 16)},
+    {"name": "single-object", "single": True, "nfiles": 1, "rollup": False, "label_enc": "bool", "nfeat": (1, 2), "learner": "transparent"},
+    {"name": "percolator-ensemble", "ensemble": True, "learner": "percolator", "nfiles": (2, 2, 1), "nan": True, "nfeat": (3, 6, 18)},
+]
+
+
+def _pick(rng, v):
+    return rng.choice(list(v)) if isinstance(v, (tuple, list)) else v
+
+
+def _is_feature(col):
+    return col == "rid" or col.startswith("feat") or col.startswith("nanf")
+
+
+def _gen_dataset(rng, prof, thorough):
+    nfiles = _pick(rng, prof.get("nfiles", (1, 1, 2)))
+    nkey = rng.choice([1, 2, 3, 4])
+    nfeat = _pick(rng, prof.get("nfeat", (3, 3, 3, 6, 1, 17)))
+    ties = bool(prof.get("ties"))
+    levels = [lv for lv in LEVEL_COLS if rng.random() < (0.6 if prof.get("levels") else 0.12)]
+    if prof.get("levels") and not levels:
+        levels = [rng.choice(LEVEL_COLS)]
+    label_enc = prof.get("label_enc") or rng.choice(["pm1", "pm1", "01", "bool"])
+    nmaxrows = 170 if thorough else 90
+    sizes = [rng.randint(40, nmaxrows)] + [rng.randint(30, nmaxrows) for _ in range(nfiles - 1)]
+    rng.shuffle(sizes)
+    files = [brewlib.gen_file(rng, sizes[j], nkey, nfeat=nfeat, file_idx=j, mult=(1, 4), label_enc=label_enc, quality=0.95,
+                              levels=levels, distinct=not ties) for j in range(nfiles)]
+    feats = ["feat%d" % j for j in range(nfeat)]
+    if ties:
+        # tied values ACROSS spectra (order among equal scores), not inside one spectrum (the winner would be arbitrary)
+        fresh = [1000]
+        for f in files:
+            cols = [x for x in SPEC_COLS if x in f["data"]]
+            for name in feats:
+                seen = set()
+                for r in range(len(f["targets"])):
+                    spec = tuple(f["data"][x][r] for x in cols)
+                    if (spec, f["data"][name][r]) in seen:
+                        fresh[0] += 1
+                        f["data"][name][r] = fresh[0]
+                    seen.add((spec, f["data"][name][r]))
+    if prof.get("floats") or (not prof.get("ties") and rng.random() < 0.1):
+        for f in files:
+            for name in feats:
+                f["data"][name] = [v / 4.0 for v in f["data"][name]]
+        floats = True
+    else:
+        floats = False
+    # features with missing values: the same columns in every file (brew requires equal feature sets), other rows
+    nanf = []
+    if prof.get("nan") or rng.random() < 0.15:
+        nn = rng.choice([1, 2, 2, 3])
+        kinds = rng.sample(["first", "last", "middle", "two"], nn)
+        for t, kind in enumerate(kinds):
+            name = "nanf%d" % t
+            nanf.append(name)
+            for f in files:
+                n = len(f["targets"])
+                vals = [rng.randint(0, 90) for _ in range(n)]
+                rows = {"first": [0], "last": [n - 1], "middle": [rng.randint(1, n - 2)],
+                        "two": sorted(rng.sample(range(n), 2))}[kind]
+                for r in rows:
+                    vals[r] = None
+                f["data"][name] = vals
+    # column order: rid stays the first FEATURE column (the recording scaler reads the row id from feature 0)
+    base_cols = list(files[0]["columns"]) + nanf
+    if prof.get("shuffle_cols") or rng.random() < 0.35:
+        rest = [c for c in base_cols if c != "rid"]
+        rng.shuffle(rest)
+        first_feat = min(i for i, c in enumerate(rest) if _is_feature(c)) if any(_is_feature(c) for c in rest) else len(rest)
+        rest.insert(rng.randint(0, first_feat), "rid")
+        order = rest
+        shuffled = True
+    else:
+        # NaN features placed among the features
+        order = [c for c in base_cols if c not in nanf]
+        for name in nanf:
+            order.insert(order.index("rid") + 1 + rng.randint(0, nfeat), name)
+        shuffled = False
+    for f in files:
+        f["columns"] = list(order)
+    learner = prof["learner"]
+    est_mode = prof.get("est_mode") or rng.choice(["decision", "decision", "decision", "proba"])
+    folds = _pick(rng, prof.get("folds", (2, 3, 3, 4, 5)))
+    if learner == "percolator" or est_mode == "decision":
+        # every fold of every file needs a few targets above its decoys, or the calibration inside brew refuses (C11) and
+        # the dataset exercises nothing: at least ~15 PSMs per fold and file (predict_proba scores are not calibrated)
+        folds = min(folds, max(2, min(sizes) // 15))
+    cap = None
+    if prof.get("cap") or rng.random() < 0.15:
+        # brew splits the cap evenly over the files and draws without replacement: stay below the training rows of the
+        # smallest file (about nmin * (1 - 1/folds) >= nmin / 2), or rng.choice raises for every configuration alike
+        cap = nfiles * max(4, min(sizes) // rng.choice([3, 4]))
+    multi = nfiles > 1
+    base = {"fn": "pipeline", "files": files, "folds": folds, "seed": rng.randint(0, 10 ** 6),
+            "test_fdr": "0.5", "train_fdr": 0.5 if learner == "percolator" else 1.0, "learner": learner,
+            "subset_max_train": cap, "est_mode": est_mode,
+            "est_order": True, "ensemble": bool(prof.get("ensemble")),
+            "confidence": True, "tiebreak": not ties,
+            "dedup": prof.get("dedup", rng.random() < 0.8), "rollup": prof.get("rollup", rng.random() < 0.85),
+            "prefixes": prof.get("prefixes", rng.random() < 0.6) if multi else rng.random() < 0.3,
+            "single": bool(prof.get("single")) and not multi, "levels": levels, "nkey": nkey,
+            "profile": prof["name"]}
+    info = {"nfiles": nfiles, "nfeat": nfeat, "nan": len(nanf), "floats": floats, "shuffled": shuffled, "ties": ties,
+            "levels": len(levels), "label_enc": label_enc, "cap": cap is not None}
+    return base, info
+
+
+def _distinct(f, cols):
+    return len(set(tuple(f["data"][x][r] for x in cols) for r in range(len(f["targets"]))))
+
+
+def _gen_variants(rng, base, thorough, ds_index=0):
+    files = base["files"]
+    ns = [len(f["targets"]) for f in files]
+    nmax, nmin = max(ns), min(ns)
+    f0 = files[0]
+    nspec = _distinct(f0, [x for x in SPEC_COLS if x in f0["data"]])
+    npep = _distinct(f0, ["Peptide"])
+    nid = 2 + len(brewlib.KEYSETS[base["nkey"]])
+    nfeatcols = sum(1 for c in f0["columns"] if _is_feature(c))
+    ncols = nfeatcols + nid
+
+    def clean(vs):
+        return sorted(set(max(1, int(v)) for v in vs))
+    rows = clean([1, 2, 3, 7, nmax // 3 + 1, nmax // 2, nmax // 2 + 1, nmax - 1, nmax, nmax + 1, nmin - 1, nmin, nmin + 1])
+    conf = clean(rows + [nspec - 1, nspec, nspec + 1, npep - 1, npep, npep + 1])
+    colsz = clean([1, 2, 3, nid, nid + 1, nfeatcols, ncols - 1, ncols, ncols + 1, 19])
+    per = 2 if thorough else 1
+    variants = []
+    for name in STREAMS:
+        pool = conf if name == "confidence" else colsz if name == "colscan" else rows
+        k = per + (1 if name in ("confidence", "colscan") or (thorough and name == "rowscan") else 0)
+        for v in rng.sample(pool, min(k, len(pool))):
+            variants.append({"name": f"{name}={v}", "chunks": {name: v}})
+    # (confidence, merge-sort) pairs: the merge-sort chunk relative to the size of the sorted chunk files
+    for _ in range(2 if thorough else 1):
+        c = rng.choice([2, 3, 7, nmax // 2 + 1])
+        m = max(1, rng.choice([1, 2, c - 1, c, c + 1]))
+        variants.append({"name": f"confidence+mergesort={c},{m}", "chunks": {"confidence": c, "mergesort": m}})
+    variants.append({"name": "all-small", "chunks": dict({n: rng.choice([1, 2, 3]) for n in STREAMS if n != "colscan"},
+                                                         colscan=rng.choice([1, 2, 3, nid]))})
+    # workers alone (few tasks per pool) and with small chunks (many tasks per pool: completion order matters)
+    ws = rng.sample([2, 3, 4, 8, 16], 3)
+    variants.append({"name": f"workers={ws[0]}+sleeps", "workers": ws[0], "read_workers": ws[0], "sleep_seed": rng.randint(1, 10 ** 6)})
+    variants.append({"name": f"workers={ws[1]}+sleeps+chunks", "workers": ws[1], "read_workers": rng.choice([1, ws[1], 5]),
+                     "sleep_seed": rng.randint(1, 10 ** 6),
+                     "chunks": {"trainread": rng.choice([1, 2, 3, 5]), "predict": rng.choice([2, 3, 7]),
+                                "confidence": rng.choice([2, 3, 5]), "colscan": rng.choice([1, 2, 3]),
+                                "rowscan": rng.choice([1, 3, 7])}})
+    if thorough:
+        variants.append({"name": f"workers={ws[2]}+sleeps+chunks", "workers": ws[2], "read_workers": ws[2],
+                         "sleep_seed": rng.randint(1, 10 ** 6),
+                         "chunks": {"trainread": rng.choice([1, 2, 7]), "confidence": rng.choice([1, 2, 7]),
+                                    "mergesort": rng.choice([1, 2, 3])}})
+    # Parquet: row groups x random chunk settings (every stream, merge-sort included, meets the Parquet readers)
+    rgs = clean([1, 2, 3, 7, nmax // 2 + 1, nmax - 1, nmax])
+    for rg in rng.sample(rgs, 3 if thorough else 2):
+        ch = {n: rng.choice(rows[:6]) for n in rng.sample([s for s in STREAMS if s != "colscan"], rng.randint(0, 3))}
+        nm = f"parquet-rg={rg}" + ("+chunks" if ch else "")
+        variants.append({"name": nm, "fmt": "parquet", "row_group": rg, "chunks": ch})
+    variants.append({"name": "parquet+chunks+workers", "fmt": "parquet", "row_group": rng.choice([2, 3, 5]), "workers": 4,
+                     "read_workers": rng.choice([1, 4]), "sleep_seed": rng.randint(1, 10 ** 6),
+                     "chunks": {"predict": 3, "confidence": 2, "trainread": 5, "mergesort": rng.choice([1, 2, 3]),
+                                "rowscan": rng.choice([2, 4])}})
+    # dictionary-typed string columns: one row group per file, except every fifth dataset (short row groups: known finding)
+    variants.append({"name": "parquet-dict", "fmt": "parquet", "row_group": rng.choice([3, 7]) if ds_index % 5 == 0 else nmax,
+                     "dict_strings": True, "chunks": {"predict": rng.choice([2, 7]), "confidence": rng.choice([3, 7])}})
+    variants.append({"name": "suffix=.tab", "suffix": ".tab", "chunks": {} if rng.random() < 0.5 else {"confidence": rng.choice([2, 7]), "trainread": 3}})
+    # text that writes integer-valued floats without a fraction ("500" for 500.0: still the identical table); pandas then
+    # infers the column type per chunk.  With a small confidence chunk this is a known finding (KEY_INTLIKE)
+    variants.append({"name": "text-%g+chunks", "float_format": "%g",
+                     "chunks": {"rowscan": rng.choice([2, 3, 7]), "trainread": rng.choice([2, 3, 7]), "predict": rng.choice([2, 3, 7]),
+                                "mergesort": rng.choice([1, 2])}})
+    if thorough or ds_index % 2 == 1:
+        variants.append({"name": "text-%g+confidence", "float_format": "%g", "chunks": {"confidence": rng.choice([2, 3, 5, 7])}})
+    # the settings given the way a user gives them: MOKAPOT_* environment variables of a fresh interpreter
+    # (a fresh interpreter costs several seconds: every second dataset; the second round of profiles takes the other half)
+    env = {"name": "env", "env": True, "hashseed": rng.randint(1, 10 ** 6),
+           "chunks": dict({n: rng.choice([2, 3, 7]) for n in STREAMS if n != "colscan"}, colscan=rng.choice([2, 3, nid, 19])),
+           "workers": rng.choice([1, 2]), "read_workers": 1}
+    if (ds_index + ds_index // len(PROFILES)) % 2 == 0:
+        variants.append(env)
+    for v in variants:
+        v["np_seed"] = rng.randint(1, 2 ** 31 - 1)
+    return variants
 
 
 def gen(ctx):
     cases = []
     rng = ctx.sub("c05")
-    nds = 14 if ctx.thorough else 5
+    nds = 20 if ctx.thorough else 10
     for k in range(nds):
-        nfiles = rng.choice([1, 1, 2])
-        nkey = rng.choice([1, 2, 4])
-        files = [brewlib.gen_file(rng, rng.randint(40, 200 if ctx.thorough else 90), nkey, file_idx=j,
-                                  mult=(1, 4), label_enc=rng.choice(["pm1", "bool"]), quality=0.85, distinct=True) for j in range(nfiles)]
-        nmax = max(len(f["targets"]) for f in files)
-        learner = "percolator" if k % 3 == 2 else "transparent"
-        base = {"fn": "pipeline", "files": files, "folds": rng.choice([2, 3, 4]), "seed": rng.randint(0, 10 ** 6),
-                "test_fdr": "0.5", "train_fdr": 0.5 if learner == "percolator" else 1.0, "learner": learner,
-                "subset_max_train": None, "est_mode": "decision", "confidence": True, "tiebreak": True}
-        variants = []
-        sizes = [1, 2, 3, 7, nmax - 1, nmax, nmax + 1]
-        for name in ("confidence", "mergesort", "predict", "trainread", "colscan", "rowscan"):
-            for v in rng.sample(sizes, 2 if ctx.thorough else 1):
-                v = max(1, v)
-                if name == "colscan":
-                    v = max(2, min(v, 25))
-                variants.append({"name": f"{name}={v}", "chunks": {name: v}})
-        variants.append({"name": "all-small", "chunks": {n: rng.choice([1, 2, 3]) for n in ("confidence", "mergesort", "predict", "trainread", "rowscan")}})
-        for w in rng.sample([2, 4, 8, 16], 2):
-            variants.append({"name": f"workers={w}+sleeps", "workers": w, "read_workers": w, "sleep_seed": rng.randint(1, 10 ** 6)})
-        for rg in rng.sample([1, 3, nmax], 2):
-            variants.append({"name": f"parquet-rg={rg}", "fmt": "parquet", "row_group": rg})
-        variants.append({"name": "parquet+chunks+workers", "fmt": "parquet", "row_group": 2, "workers": 4, "sleep_seed": 7,
-                         "chunks": {"predict": 3, "confidence": 2, "trainread": 5}})
+        prof = PROFILES[k % len(PROFILES)]
+        base, info = _gen_dataset(rng, prof, ctx.thorough)
+        variants = _gen_variants(rng, base, ctx.thorough, k)
+        dtags = ["profile=" + prof["name"], base["learner"], f"files={info['nfiles']}", f"folds={base['folds']}"]
+        dtags += [t for t, on in (("nan-features", info["nan"]), ("float-features", info["floats"]), ("shuffled-columns", info["shuffled"]),
+                                  ("tied-scores", info["ties"]), ("level-columns", info["levels"]), ("capped-training", info["cap"]),
+                                  ("ensemble", base["ensemble"]), ("nodedup", not base["dedup"]), ("norollup", not base["rollup"]),
+                                  ("shared-result-files", info["nfiles"] > 1 and not base["prefixes"]), ("single-object", base["single"]),
+                                  ("proba", base["est_mode"] == "proba"), ("features>=15", info["nfeat"] >= 15)) if on]
+        dtags.append("labels=" + info["label_enc"])
         for v in variants:
             c = dict(base)
             c["variant"] = v
-            c["tags"] = ["pipeline", learner, v["name"].split("=")[0], f"files={nfiles}"]
+            c["tags"] = ["pipeline", "variant:" + v["name"].split("=")[0]] + dtags
             cases.append(c)
     return cases
+
+
+# ----------------------------------------------------------------------------- running the real code
+_CLS = []
+
+
+def _classes():
+    """recording scaler of brewlib + a transparent estimator whose learned column depends on the ORDER of the rows it is
+    fitted on (brewlib's depends on their sum only): a training set delivered in another order is visible in the scores"""
+    if _CLS:
+        return _CLS[0]
+    import numpy as np
+    RecScaler, Transparent = brewlib.make_classes()
+
+    class OrderTransparent(Transparent):
+        def __init__(self, mode="decision", learn=True, kind="col", ordered=True):
+            super().__init__(mode=mode, learn=learn, kind=kind)
+            self.ordered = ordered
+
+        def fit(self, X, y):
+            ids = [int(v) for v in X[:, 0]]
+            h = sum((i + 1) * v for i, v in enumerate(ids)) if self.ordered else sum(ids)
+            self.col_ = 1 + (h % (X.shape[1] - 1)) if X.shape[1] > 1 else 0
+            self.classes_ = np.array([0, 1])
+            with brewlib._LOCK:
+                brewlib.LOG["est_fit"].append((ids, [int(v) for v in y], int(self.col_)))
+            return self
+
+    _CLS.append((RecScaler, OrderTransparent))
+    return _CLS[0]
+
+
+class _Probe:
+    """records which chunk sizes the readers were asked for (and how many chunks they delivered), per phase"""
+
+    def __init__(self):
+        self.log = []
+        self.phase = "init"
+        self.old = []
+        self.lock = threading.Lock()
+
+    def __enter__(self):
+        import mokapot.tabular_data as td
+        import pyarrow.parquet as pq
+        probe = self
+
+        def wrap_reader(cls):
+            orig = cls.get_chunked_data_iterator
+
+            def g(self_, chunk_size, columns=None):
+                rec = {"phase": probe.phase, "kind": cls.__name__, "size": int(chunk_size),
+                       "ncols": None if columns is None else len(columns), "chunks": 0}
+                with probe.lock:
+                    probe.log.append(rec)
+                for ch in orig(self_, chunk_size, columns):
+                    rec["chunks"] += 1
+                    yield ch
+            cls.get_chunked_data_iterator = g
+            probe.old.append((cls, "get_chunked_data_iterator", orig))
+        wrap_reader(td.CSVFileReader)
+        wrap_reader(td.ParquetFileReader)
+        orig_ib = pq.ParquetFile.iter_batches
+
+        def ib(self_, batch_size=65536, *a, **k):
+            rec = {"phase": probe.phase, "kind": "iter_batches", "size": int(batch_size), "ncols": None, "chunks": 0}
+            with probe.lock:
+                probe.log.append(rec)
+            for b in orig_ib(self_, batch_size, *a, **k):
+                rec["chunks"] += 1
+                yield b
+        pq.ParquetFile.iter_batches = ib
+        probe.old.append((pq.ParquetFile, "iter_batches", orig_ib))
+        return self
+
+    def __exit__(self, *a):
+        for obj, name, f in self.old:
+            setattr(obj, name, f)
+        self.old = []
+
+
+def _effect(cfg, log, failed_in, all_trained=True):
+    """-> (names of configured streams whose setting never reached the code, {stream: max chunks delivered})"""
+    phases = {"rowscan": "read", "colscan": "read", "trainread": "brew", "predict": "brew", "confidence": "conf", "mergesort": "conf"}
+    order = ["read", "brew", "conf"]
+    reached = order if failed_in is None else order[:order.index(failed_in)]
+    bad, nch = [], {}
+    nid = 2 + len(brewlib.KEYSETS[cfg["nkey"]])
+    for name, v in (cfg.get("chunks") or {}).items():
+        ph = phases[name]
+        if ph not in reached or (name == "predict" and not all_trained):
+            continue          # brew does not read the prediction stream when some fold model could not be trained
+        recs = [r for r in log if r["phase"] == ph]
+        if name == "colscan":
+            widths = [r["ncols"] for r in recs if r["ncols"] is not None and r["kind"] != "iter_batches"]
+            total = sum(1 for c in cfg["files"][0]["columns"] if _is_feature(c)) + nid
+            ncalls = len(widths) // max(1, len(cfg["files"]))
+            if not widths or max(widths) > max(v, nid) or (total > max(v, nid) and ncalls < 2):
+                bad.append(name)
+            nch[name] = ncalls
+            continue
+        mine = [r for r in recs if r["size"] == int(v)]
+        if not mine:
+            bad.append(name)
+        nch[name] = max([r["chunks"] for r in mine] or [0])
+    return bad, nch
+
+
+def _write_file(f, d, name, fmt="tsv", row_group=None, suffix=None, dict_strings=False, float_format=None):
+    import pandas as pd
+    df = pd.DataFrame(f["data"], columns=f["columns"])
+    if fmt == "parquet":
+        p = Path(d) / (name + ".parquet")
+        if dict_strings:
+            for c in df.columns:
+                if df[c].dtype == object or str(df[c].dtype).startswith(("str", "string")):
+                    df[c] = df[c].astype("category")
+        df.to_parquet(p, index=False, row_group_size=row_group or max(1, len(df)))
+    else:
+        p = Path(d) / (name + (suffix or ".pin"))
+        df.to_csv(p, sep="\t", index=False, float_format=float_format)
+    return p
+
+
+def _parse_result(path):
+    """header and rows of a result file: numbers as floats, everything else as text"""
+    import pandas as pd
+    if path.suffix == ".parquet":
+        df = pd.read_parquet(path)
+    else:
+        df = pd.read_csv(path, sep="\t", float_precision="round_trip")
+    cols = [str(c) for c in df.columns]
+    rows = []
+    for rec in df.itertuples(index=False, name=None):
+        row = []
+        for v in rec:
+            if isinstance(v, bool) or v is None:
+                row.append(str(v))
+            elif isinstance(v, (int, float)) or hasattr(v, "dtype") and v.dtype.kind in "iuf":
+                row.append(float(v))
+            else:
+                row.append(str(v))
+        rows.append(row)
+    return {"cols": cols, "rows": rows}
+
+
+def _run(cfg):
+    """run the real read_pin + brew + assign_confidence under one configuration; JSON-able observation"""
+    import numpy as np
+    import mokapot
+    import mokapot.confidence as conf
+    from mokapot.model import Model
+    RecScaler, Transparent = _classes()
+    d = tempfile.mkdtemp(prefix="c05_", dir=os.environ.get("VERIF_TMP", "/tmp"))
+    probe = _Probe()
+    failed_in = None
+    obs = {"error": None}
+    chunks = cfg.get("chunks") or {}
+    try:
+        paths = [_write_file(f, d, "file%d" % i, cfg.get("fmt", "tsv"), cfg.get("row_group"), cfg.get("suffix"),
+                             cfg.get("dict_strings", False), cfg.get("float_format")) for i, f in enumerate(cfg["files"])]
+        if cfg.get("np_seed") is not None:       # global generator state: nothing may depend on it
+            np.random.seed(cfg["np_seed"] % (2 ** 32))
+            _random.seed(cfg["np_seed"])
+        if cfg.get("env"):
+            import importlib
+            # the constants were read from the environment when mokapot was imported by this (fresh) interpreter
+            stale = [n for n, v in chunks.items()
+                     if getattr(importlib.import_module(brewlib.Chunking.NAMES[n][0]), brewlib.Chunking.NAMES[n][1]) != int(v)]
+            obs["env_not_applied"] = stale
+            chunking = brewlib.Chunking()
+        else:
+            chunking = brewlib.Chunking(**chunks)
+        with chunking, brewlib.Sleeps(cfg.get("sleep_seed")), probe:
+            try:
+                failed_in = "read"
+                probe.phase = "read"
+                dss = mokapot.read_pin(paths, max_workers=cfg.get("read_workers", 1))
+                obs["features"] = [list(ds.feature_columns) for ds in dss]
+                obs["keys"] = [brewlib.spectrum_keys(ds) for ds in dss]
+                brewlib.reset_log()
+                if cfg.get("learner") == "percolator":
+                    model = mokapot.PercolatorModel(train_fdr=cfg.get("train_fdr", 0.2), max_iter=3, rng=cfg["seed"])
+                else:
+                    est = Transparent(mode=cfg.get("est_mode", "decision"), ordered=bool(cfg.get("est_order", True)))
+                    model = Model(est, scaler=RecScaler(), train_fdr=cfg.get("train_fdr", 1.0), max_iter=1, override=True,
+                                  rng=cfg["seed"])
+                failed_in = "brew"
+                probe.phase = "brew"
+                psms = dss[0] if cfg.get("single") and len(dss) == 1 else dss
+                _, models, scores, descs = mokapot.brew(
+                    psms, model, test_fdr=float(cfg["test_fdr"]), folds=cfg["folds"], max_workers=cfg.get("workers", 1),
+                    rng=cfg["seed"], subset_max_train=cfg.get("subset_max_train"), ensemble=bool(cfg.get("ensemble")))
+                scores = [np.asarray(s, dtype=float).ravel() for s in scores]
+                failed_in = "conf"
+                probe.phase = "conf"
+                out = Path(d) / "out"
+                out.mkdir(exist_ok=True)
+                oldp = conf.peps_from_scores
+                conf.peps_from_scores = brewlib._const_peps
+                try:
+                    prefixes = ["coll%d" % i for i in range(len(paths))] if cfg.get("prefixes") else [None] * len(paths)
+                    conf_scores = [np.array(sc, dtype=float) for sc in scores]
+                    if cfg.get("tiebreak"):
+                        # break ties between folds deterministically (row index * 2^-20) so that the result
+                        # files are a function of the scores alone, whatever the sort / file order
+                        conf_scores = [sc + np.arange(len(sc)) * 2.0 ** -20 for sc in conf_scores]
+                    mokapot.assign_confidence(dss, max_workers=cfg.get("workers", 1), scores=conf_scores,
+                                              descs=[bool(x) for x in descs], eval_fdr=0.5, dest_dir=out, prefixes=prefixes,
+                                              decoys=True, deduplication=bool(cfg.get("dedup", True)),
+                                              do_rollup=bool(cfg.get("rollup", True)))
+                finally:
+                    conf.peps_from_scores = oldp
+                failed_in = None
+            except BaseException as e:   # noqa
+                if isinstance(e, (KeyboardInterrupt, SystemExit, MemoryError)):
+                    raise
+                obs["error"] = lib.err_kind(e)
+                obs["message"] = str(e)[:200]
+                obs["failed_in"] = failed_in
+                obs["est_fits"] = [(sorted(x[0]), x[2]) for x in brewlib.LOG["est_fit"] if len(x) > 2]
+        obs["ineffective"], obs["nchunks"] = _effect(cfg, probe.log, failed_in,
+                                                     obs["error"] is not None or all(bool(m.is_trained) for m in models))
+        if obs["error"]:
+            return obs
+        conf_files, leftovers = {}, []
+        for fn in sorted(os.listdir(out)):
+            parts = fn.split(".")
+            if "targets" in parts or "decoys" in parts:
+                conf_files[fn] = _parse_result(out / fn)
+            else:
+                leftovers.append(fn)
+        LOG = brewlib.LOG
+        fit_by_token = dict(LOG["fit"])
+        tr = {}
+        for tok, ids in LOG["transform"]:
+            tr.setdefault(tok, []).extend(ids)
+        obs.update({
+            "model_folds": [m.fold for m in models],
+            "trained": [bool(m.is_trained) for m in models],
+            "cols": [getattr(m.estimator, "col_", None) for m in models],
+            "train_ids": [sorted(fit_by_token.get(getattr(m.scaler, "token_", None), [])) for m in models],
+            "scored_ids": [sorted(tr.get(getattr(m.scaler, "token_", None), [])) for m in models],
+            "scores": [[float(v) for v in s] for s in scores],
+            "descs": [bool(x) for x in descs],
+            "conf": conf_files, "leftovers": leftovers,
+            "conf_scores": [[float(v) for v in sc] for sc in conf_scores],
+            "seen": [{} for _ in models],
+        })
+        return obs
+    finally:
+        shutil.rmtree(d, ignore_errors=True)
+
+
+def _run_env(cfg):
+    """the same run in a fresh interpreter that gets the chunk sizes through the MOKAPOT_* environment variables"""
+    d = tempfile.mkdtemp(prefix="c05env_", dir=os.environ.get("VERIF_TMP", "/tmp"))
+    try:
+        p = Path(d) / "cfg.json"
+        p.write_text(json.dumps(lib.jsonable(cfg)))
+        env = dict(os.environ)
+        for n in ENV_NAMES.values():
+            env.pop(n, None)
+        for n, v in (cfg.get("chunks") or {}).items():
+            env[ENV_NAMES[n]] = str(int(v))
+        env["PYTHONHASHSEED"] = str(cfg.get("hashseed", 0) % 4294967295)
+        r = subprocess.run([sys.executable, "-W", "ignore", "-m", "harness.c05_worker", str(p)], env=env, cwd=str(lib.VERIF),
+                           stdout=subprocess.PIPE, stderr=subprocess.PIPE, timeout=900)
+        lines = [ln for ln in r.stdout.decode(errors="replace").split("\n") if ln.startswith("C05OBS ")]
+        if r.returncode != 0 or not lines:
+            raise RuntimeError("worker failed: rc=%s %s" % (r.returncode, r.stderr.decode(errors="replace")[-300:]))
+        return json.loads(lines[-1][len("C05OBS "):])
+    finally:
+        shutil.rmtree(d, ignore_errors=True)
 
 
 def _cfg(case, variant):
     c = dict(case)
     c.pop("variant", None)
     c.pop("tags", None)
-    c.update({"chunks": {}, "workers": 1, "read_workers": 1, "fmt": "tsv", "row_group": None})
+    c.update({"chunks": {}, "workers": 1, "read_workers": 1, "fmt": "tsv", "row_group": None, "np_seed": 12345})
     if variant:
         c.update({k: v for k, v in variant.items() if k != "name"})
     return c
 
 
 _BASE = {}
+_BVM = {}
+_INFO = {}
+
+
+def _case_key(case):
+    return lib.stable_hash({k: v for k, v in case.items() if k != "tags"})
 
 
 def _baseline(case):
-    key = lib.stable_hash({"files": case["files"], "folds": case["folds"], "seed": case["seed"], "learner": case["learner"]})
+    key = lib.stable_hash({k: v for k, v in case.items() if k not in ("tags", "variant")})
     if key not in _BASE:
         cfg = _cfg(case, None)
-        got = call_impl(brewlib.run_brew, cfg)
-        _BASE[key] = (cfg, got)
+        _BASE[key] = (cfg, call_impl(_run, cfg))
     return _BASE[key]
 
 
-def _canon(obs, learner):
-    if obs.get("error"):
-        return {"error": obs["error"]}
-    return {"features": obs["features"], "scores": obs["scores"], "descs": obs["descs"], "conf": obs["conf"],
-            "conf_scores": obs.get("conf_scores"),
-            "leftovers": obs["leftovers"], "folds": obs["scored_ids"] if learner == "transparent" else None}
-
-
+# ----------------------------------------------------------------------------- comparison
 def _close(a, b, exact):
-    if exact:
-        return a == b
     if a is None or b is None:
         return a == b
-    return abs(a - b) <= Fraction(1, 10 ** 9) * max(1, abs(a), abs(b))
+    if a != a or b != b:
+        return a != a and b != b
+    if exact:
+        return a == b
+    return abs(a - b) <= 1e-9 * max(1.0, abs(a), abs(b))
 
 
-def _has_ties(scores):
-    return any(len(set(s)) < len(s) for s in scores)
+def _eff_scores(case, obs):
+    return [[v if d else -v for v in sc] for sc, d in zip(obs["conf_scores"], obs["descs"])]
 
 
-def _equal(x, y, exact):
-    """compare two canonical observations; returns None or the name of the first differing artifact"""
-    if ("error" in x) != ("error" in y):
+def _tie_info(case, obs):
+    """(some scores are equal, some entity has two equally scored top PSMs so that its winner is arbitrary)"""
+    cs = _eff_scores(case, obs)
+    if not any(len(set(s)) < len(s) for s in cs):
+        return False, False
+    for j, f in enumerate(case["files"]):
+        sc = cs[j]
+        n = len(sc)
+        cols = [x for x in SPEC_COLS if x in f["data"]]
+        if case.get("dedup", True):
+            groups = {}
+            for r in range(n):
+                groups.setdefault(tuple(f["data"][x][r] for x in cols), []).append(r)
+            retained = []
+            for g in groups.values():
+                m = max(sc[r] for r in g)
+                top = [r for r in g if sc[r] == m]
+                if len(top) > 1:
+                    return True, True
+                retained.append(top[0])
+        else:
+            retained = list(range(n))
+        if case.get("rollup", True):
+            for lv in ["Peptide"] + list(case.get("levels") or []):
+                groups = {}
+                for r in retained:
+                    groups.setdefault(f["data"][lv][r], []).append(r)
+                for g in groups.values():
+                    m = max(sc[r] for r in g)
+                    if sum(1 for r in g if sc[r] == m) > 1:
+                        return True, True
+    return True, False
+
+
+def _locate(pid):
+    j, r = pid[1:].split("_psm")
+    return int(j), int(r)
+
+
+def _cell_rule(col):
+    c = col.lower()
+    if c == "score":
+        return "score"
+    if c in ("q-value", "q_value", "posterior_error_prob"):
+        return "stat"
+    return "text"
+
+
+def _equal_file(fa, fb, exact, ties):
+    if fa["cols"] != fb["cols"]:
+        return "header"
+    ra, rb = fa["rows"], fb["rows"]
+    if len(ra) != len(rb):
+        return "number of rows"
+    cols = fa["cols"]
+    rules = [_cell_rule(c) for c in cols]
+    idc = cols.index("PSMId") if "PSMId" in cols else 0
+    if not ties:
+        pairs = list(zip(ra, rb))
+    else:
+        # rows may be permuted among equal scores only: same score sequence, same row per id
+        if "score" in cols:
+            sc = cols.index("score")
+            if not all(_close(x[sc], y[sc], False) for x, y in zip(ra, rb)):
+                return "score order"
+        da, db = {x[idc]: x for x in ra}, {y[idc]: y for y in rb}
+        if len(da) != len(ra) or set(da) != set(db):
+            return "set of rows"
+        pairs = [(da[k], db[k]) for k in da]
+    for x, y in pairs:
+        for col, rule, u, v in zip(cols, rules, x, y):
+            if rule == "text" or isinstance(u, str) or isinstance(v, str):
+                if u != v and not (u != u and v != v):
+                    return "column " + col + (" (row order)" if col == cols[idc] else "")
+            elif rule == "score":
+                # the score column passes through text intermediates (inexact float parsing: 1 ulp): tolerance
+                if not _close(u, v, False):
+                    return "column " + col
+            elif not _close(u, v, exact):
+                return "column " + col
+    return None
+
+
+def _psm_multiset(case, obs):
+    """PSM level, targets and decoys together: multiset of (collection, spectrum, score)"""
+    out = []
+    for fn, tab in obs["conf"].items():
+        if not fn.endswith(".psms"):
+            continue
+        idc, sc = tab["cols"].index("PSMId"), tab["cols"].index("score")
+        for row in tab["rows"]:
+            j, r = _locate(row[idc])
+            f = case["files"][j]
+            cols = [x for x in SPEC_COLS if x in f["data"]]
+            ent = (tuple(f["data"][x][r] for x in cols) if case.get("dedup", True) else r)
+            out.append((fn.replace("targets", "*").replace("decoys", "*"), j, str(ent), round(row[sc], 6)))
+    return sorted(out)
+
+
+def _equal(case, x, y, exact):
+    """compare two observations; returns None or the name of the first differing artifact"""
+    if bool(x.get("error")) != bool(y.get("error")):
         return "error"
-    if "error" in x:
-        return None if x["error"] == y["error"] else "error"
-    if x["features"] != y["features"]:
-        return "dataset"
+    if x.get("features") != y.get("features"):
+        return "dataset (feature columns)"
+    if x.get("error"):
+        return None if (x["error"], x.get("failed_in")) == (y["error"], y.get("failed_in")) else "error"
     if x["descs"] != y["descs"] or len(x["scores"]) != len(y["scores"]):
         return "descs"
+    identical = True
     for a, b in zip(x["scores"], y["scores"]):
         if len(a) != len(b) or not all(_close(u, v, exact) for u, v in zip(a, b)):
             return "scores"
-    if exact and x["folds"] != y["folds"]:
+        identical = identical and all(_close(u, v, True) for u, v in zip(a, b))
+    if exact and x["scored_ids"] != y["scored_ids"]:
         return "folds"
     if sorted(x["conf"]) != sorted(y["conf"]):
         return "result-files"
-    if _has_ties(x.get("conf_scores") or x["scores"]) or not exact:
-        # with tied scores any tied winner is accepted (the winner depends on sort / file order):
-        # compare the number of PSM-level rows only
-        for fn in x["conf"]:
-            if fn.endswith("psms") and "targets" in fn:
-                dn = fn.replace("targets", "decoys")
-                if len(x["conf"][fn]) + len(x["conf"].get(dn, [])) != len(y["conf"][fn]) + len(y["conf"].get(dn, [])):
-                    return fn
+    ties, ambiguous = _tie_info(case, x)
+    if ambiguous or not identical:
+        # (a) an entity with equally scored top PSMs: any of them may win, and the winner's peptide decides the higher
+        # levels; (b) real-learner scores that differ in the last bits: near-ties may swap.  PSM level: the multiset of
+        # (spectrum, score) is still determined
+        if not identical:
+            flat = sorted(v for s in x["conf_scores"] for v in s)
+            if not any(abs(a - b) <= 1e-6 * max(1.0, abs(a)) for a, b in zip(flat, flat[1:])):
+                for fn in x["conf"]:
+                    ida, idb = x["conf"][fn]["cols"].index("PSMId"), y["conf"][fn]["cols"].index("PSMId")
+                    if [r[ida] for r in x["conf"][fn]["rows"]] != [r[idb] for r in y["conf"][fn]["rows"]]:
+                        return fn
+        if _psm_multiset(case, x) != _psm_multiset(case, y):
+            return "PSM-level (spectrum, score) multiset"
         return None if x["leftovers"] == y["leftovers"] else "leftovers"
     for fn in x["conf"]:
-        ra, rb = x["conf"][fn], y["conf"][fn]
-        if len(ra) != len(rb):
-            return fn
-        for (i1, s1, q1), (i2, s2, q2) in zip(ra, rb):
-            # the score column passes through text intermediates (inexact float parsing: 1 ulp): tolerance;
-            # ids, order and q-values exactly
-            if i1 != i2 or not _close(Fraction(s1), Fraction(s2), False) or not _close(q1, q2, exact):
-                return fn
+        d = _equal_file(x["conf"][fn], y["conf"][fn], exact or identical, ties)
+        if d:
+            return f"{fn}: {d}"
     if x["leftovers"] != y["leftovers"]:
         return "leftovers"
     return None
 
 
+# ----------------------------------------------------------------------------- chunk-free predictions for the baseline
+def _expected_features(f):
+    return [c for c in f["columns"] if _is_feature(c) and not any(v is None for v in f["data"][c])]
+
+
+def _int_features(case):
+    return all(isinstance(v, int) for f in case["files"] for c in f["columns"] if c.startswith("feat") for v in f["data"][c])
+
+
+def _relabel(case, obs):
+    """files as the extracted Brew model wants them: feature k of the estimator = column 'rid' (k = 0) / 'feat<k-1>'"""
+    files = []
+    for f, feats in zip(case["files"], obs["features"]):
+        data = {c: f["data"][c] for c in f["data"] if not _is_feature(c)}
+        data["rid"] = f["data"][feats[0]]
+        for k, name in enumerate(feats[1:]):
+            data["feat%d" % k] = f["data"][name]
+        files.append({"columns": list(data.keys()), "data": data, "targets": f["targets"]})
+    return files
+
+
+def _fr_obs(obs):
+    o = dict(obs)
+    o["scores"] = [[Fraction(v) if v == v and abs(v) != float("inf") else None for v in s] for s in obs["scores"]]
+    return o
+
+
+def _baseline_vs_model(case, cfg0, got0):
+    """None or the name of the artifact on which the baseline run contradicts the chunk-free prediction"""
+    obs = got0[1]
+    exp = [_expected_features(f) for f in case["files"]]
+    if obs.get("features") is not None and obs["features"] != exp:
+        return "feature columns (chunk-free specification: the columns without missing value, in file order)"
+    if case["learner"] != "transparent":
+        return None
+    if obs.get("error"):
+        return None
+    if case.get("ensemble"):
+        # property oracle alone: ensemble score = mean over the fold models of the column each learned
+        for j, (f, feats) in enumerate(zip(case["files"], obs["features"])):
+            n = len(f["targets"])
+            for r in range(n):
+                vals = [float(f["data"][feats[c]][r]) for c in obs["cols"]]
+                e = sum(vals) / len(vals)
+                if abs(obs["scores"][j][r] - e) > 1e-9 * max(1.0, abs(e)):
+                    return "ensemble scores (mean of the fold models)"
+    elif _int_features(case) and obs["features"] and all(ft and ft[0] == "rid" for ft in obs["features"]):
+        cm = dict(cfg0, files=_relabel(case, obs))
+        m, i = c02.compare(cm, ("ok", _fr_obs(obs)))
+        if not c02.same(cm, m, i):
+            return "brew (fold partition / training sets / routing / scores of Model/Brew.v)"
+    ties, _ = _tie_info(case, obs)
+    if not ties and all(obs["descs"]):
+        c3 = {"files": case["files"], "scores": obs["conf_scores"], "dedup": bool(case.get("dedup", True)),
+              "rollup": bool(case.get("rollup", True)), "decoys": True, "prefixes": bool(case.get("prefixes")),
+              "chunks": {}, "levels": list(case.get("levels") or []), "descs": True}
+        mf = c03._model(c3)
+        obs_files = {}
+        for fn, tab in obs["conf"].items():
+            idc, qc = tab["cols"].index("PSMId"), tab["cols"].index("q-value")
+            obs_files[fn] = [(row[idc], Fraction(row[qc])) for row in tab["rows"]]
+        if lib.jsonable(mf) != lib.jsonable(obs_files):
+            return "confidence (result files of Model/Confidence.v)"
+    return None
+
+
+# ----------------------------------------------------------------------------- one case
 def run_case(case):
     cfg0, got0 = _baseline(case)
+    key = _case_key(case)
+    _INFO[key] = {"nontrivial": False}
     if got0[0] == "err":
         return ("unknown", ""), ("err", "baseline: " + str(got0[1]))
     exact = case["learner"] == "transparent"
-    base = _canon(got0[1], case["learner"])
-    got = call_impl(brewlib.run_brew, _cfg(case, case["variant"]))
+    base = got0[1]
+    cfg = _cfg(case, case["variant"])
+    got = call_impl(_run_env if cfg.get("env") else _run, cfg)
+    model = {"differs": None, "baseline_vs_model": None, "ineffective": None}
     if got[0] == "err":
-        return ("ok", {"differs": None}), ("err", got[1])
-    var = _canon(got[1], case["learner"])
-    impl = {"differs": _equal(base, var, exact), "baseline_vs_model": None}
-    model = {"differs": None, "baseline_vs_model": None}
-    # baseline against the model (transparent estimator only), once per dataset is enough but cheap
-    if exact and "error" not in base:
-        m, i = c02.compare(cfg0, got0)
-        if not c02.same(cfg0, m, i):
-            impl["baseline_vs_model"] = "brew"
-        elif not _has_ties(got0[1]["conf_scores"]):
-            c3 = {"files": case["files"], "scores": got0[1]["conf_scores"], "dedup": True, "rollup": True, "decoys": True,
-                  "prefixes": len(case["files"]) > 1, "chunks": {}, "levels": [], "descs": True}
-            mf = c03._model(c3)
-            obs_files = {k: [(i1, q1) for i1, s1, q1 in v] for k, v in got0[1]["conf"].items()}
-            if lib.jsonable(mf) != lib.jsonable(obs_files):
-                impl["baseline_vs_model"] = "confidence"
+        return ("ok", model), ("err", got[1])
+    var = got[1]
+    impl = {"differs": _equal(case, base, var, exact), "baseline_vs_model": None, "ineffective": None}
+    bad = list(var.get("ineffective") or []) + ["env:" + n for n in (var.get("env_not_applied") or [])]
+    if bad:
+        impl["ineffective"] = bad
+    bkey = id(got0)
+    if bkey not in _BVM:
+        _BVM[bkey] = _baseline_vs_model(case, cfg0, got0)       # once per dataset
+    impl["baseline_vs_model"] = _BVM[bkey]
+    if base.get("error"):
+        impl["note"] = "baseline raises %s in %s: %s" % (base["error"], base.get("failed_in"), base.get("message"))
+    if any(v != v or abs(v) == float("inf") for sc in (base.get("scores") or []) for v in sc):
+        impl["baseline_nonfinite"] = True
     if impl["differs"]:
-        impl["variant"] = var if "error" in var else {"scores0": var["scores"][0][:8]}
-        impl["baseline"] = base if "error" in base else {"scores0": base["scores"][0][:8]}
+        impl["variant"] = {"error": var.get("error"), "message": var.get("message"), "features": var.get("features"),
+                           "scores0": (var.get("scores") or [[]])[0][:8]}
+        impl["baseline"] = {"error": base.get("error"), "message": base.get("message"), "features": base.get("features"),
+                            "scores0": (base.get("scores") or [[]])[0][:8]}
+    v = case["variant"]
+    changed = (any(n >= 2 for n in (var.get("nchunks") or {}).values()) or v.get("workers", 1) > 1 or v.get("read_workers", 1) > 1
+               or v.get("fmt") == "parquet" or bool(v.get("suffix")) or bool(v.get("env")) or bool(v.get("float_format")))
+    _INFO[key]["nontrivial"] = bool(changed and not base.get("error") and not var.get("error"))
     return ("ok", model), ("ok", impl)
 
 
 def same(c, m, i):
     if i[0] != "ok":
         return False
-    return i[1]["differs"] is None and i[1]["baseline_vs_model"] is None
+    return i[1]["differs"] is None and i[1]["baseline_vs_model"] is None and not i[1].get("ineffective")
 
 
 def nontrivial(c):
-    v = c["variant"]
-    return bool(v.get("chunks")) or v.get("workers", 1) > 1 or v.get("fmt") == "parquet"
+    info = _INFO.get(_case_key(c))
+    return bool(info and info["nontrivial"])
 
 
 def oracle(c, i):
@@ -191,5 +892,33 @@ def oracle(c, i):
     return None
 
 
+KEY_PQ_DICT = "parquet:dictionary-columns-short-batches"
+KEY_INTLIKE = "text:integer-looking-float-key-chunk-dedup"
+KEY_PQ_NAN = "parquet:nan-score-null"
+
+
 def finding_key(c, m, i):
+    """Parquet whose string columns are dictionary-typed (pandas categoricals, many writers): pyarrow's iter_batches does
+    not re-chunk such columns across row groups, so the file chunks are shorter than the score / fold-index slices they
+    are zipped with and the run fails — only for row-group layouts with a group shorter than the file"""
+    v = c.get("variant") or {}
+    if v.get("dict_strings") and v.get("fmt") == "parquet" and any((v.get("row_group") or 10 ** 9) < len(f["targets"]) for f in c["files"]):
+        if i is not None and i[0] == "ok" and i[1].get("differs") == "error" and (i[1].get("variant") or {}).get("error") == "ValueError" \
+                and "Length of values" in ((i[1].get("variant") or {}).get("message") or "") \
+                and not i[1].get("baseline_vs_model") and not i[1].get("ineffective"):
+            return KEY_PQ_DICT
+    # text input writing integer-valued entries of a float spectrum-key column (ret_time, ExpMass) without a fraction: pandas
+    # infers int64 for a confidence chunk holding only such entries and float64 otherwise, the chunk files spell the value
+    # "1" / "1.0", and the cross-chunk de-duplication compares the spelling: duplicates survive once per inferred type
+    if v.get("float_format") and c.get("dedup", True) and c.get("nkey", 1) >= 2 \
+            and (v.get("chunks") or {}).get("confidence", 10 ** 9) < max(len(f["targets"]) for f in c["files"]):
+        if i is not None and i[0] == "ok" and i[1].get("differs") and not i[1].get("baseline_vs_model") and not i[1].get("ineffective") \
+                and any(t in i[1]["differs"] for t in ("targets.", "decoys.", "PSM-level")):
+            return KEY_INTLIKE
+    # brew returned NaN for some PSM (degenerate calibration 0/0 in a small fold, under every configuration alike): the text
+    # pipeline carries NaN through its chunk files, the Parquet pipeline reads it back as None and float(None) raises
+    if v.get("fmt") == "parquet" and i is not None and i[0] == "ok" and i[1].get("baseline_nonfinite") and i[1].get("differs") == "error" \
+            and (i[1].get("variant") or {}).get("error") == "TypeError" and "NoneType" in ((i[1].get("variant") or {}).get("message") or "") \
+            and not i[1].get("baseline_vs_model") and not i[1].get("ineffective"):
+        return KEY_PQ_NAN
     return None
